@@ -8,7 +8,7 @@
            irrelevant and not modelled).  Afterwards a FRESH process (empty cache) asks find / latest / recent.
    Proofs: Hist/ProofsCrash.v (structured level: every crash state is query-related to a run map), Hist/ProofsString.v
            (crash states of the string-level model = renderings of the structured ones), Hist/ProofsC07.v (composition),
-           Hist/ProofsC07Ex.v (refuted witnesses F7a/b/c, Examples).  Quantification: ALL reachable states (any trace `es` of
+           Hist/ProofsC07Ex.v (the former witnesses of F7a/b/c as repaired Examples).  Quantification: ALL reachable states (any trace `es` of
            operations and queries satisfying the premises of C06) x ALL operations x ALL crash states.
    Tie to the code: tools/props/C07.py - the real jsondb is killed by SIGKILL at every system call of scripted scenarios
            (strace fault injection) and at every byte of the last append; the surviving directory must be one of the model's crash
@@ -17,20 +17,24 @@
    P1 every completed run is found with its last status; P2 the interrupted run is found with a status no older than the last
    acknowledged one; P3 latest answers without error, never older than acknowledged; P4 recent n lists no run twice and hides
    no run with acknowledged data.
-   Model of the REPAIRED store (3aa388e: readers skip files without a parseable status; e6d6379, 8ffc003, e2affa2 as for C06).
-   What holds: open / write / update / chtimes are ATOMIC under a kill - every query is answered as the run map before or after the
-   operation says (P1-P4; since 3aa388e this includes the crash between Open and the first write: the run without status is simply not
-   listed - F7a is repaired, C07_fixed_empty_newest);
-   close: find answers as before in every crash state (P1, P2), and ALL queries answer as before or after in every crash state except
-   those in which the compacted twin already holds a complete status line while the original still exists (F7b, C07_refuted_compaction_twin);
-   retention: every run not up for removal is found intact (P1); rename: every run is found under exactly one name (P1).
-   Still refuted: F7b (as narrowed above) and F7c (an update accepted after a torn write is glued to the torn tail).
+   Model of the REPAIRED store (3aa388e: readers skip files without a parseable status; eb925d1: the compacted copy is written as
+   <file>.tmp, published with a rename, and the readers drop an original whose compacted copy is listed; 32b069b: writer.open terminates
+   a torn last line; e6d6379, 8ffc003, e2affa2 as for C06).
+   What holds (FULL statement): open / write / close / update / chtimes are ATOMIC under a kill - in EVERY crash state (every prefix of
+   the primitive steps, every torn append) EVERY query is answered as the run map before or after the operation says (P1-P4), for every
+   reachable state.  This includes the crash between Open and the first write (F7a, 3aa388e) and EVERY point of the compaction (F7b,
+   eb925d1 - C07_crash_close has no exception left).  A status update recorded by a new process AFTER a kill inside a write / update -
+   torn tail or not - is what every query answers afterwards (F7c, 32b069b - C07_update_after_torn).
+   _partial (a limit of the proof, not of the code - the enumeration checks P1-P4 there): retention: every run not up for removal is
+   found intact (P1); rename: every run is found under exactly one name (P1).
+   The former _refuted witnesses of F7a / F7b / F7c are positive Examples now (C07_fixed_...).
    Premises: those of C06 (names_okb, closedb, premises) for the trace up to and including the interrupted operation. *)
 From Coq Require Import List String ZArith Bool Arith.
 Import ListNotations.
 From BD.Hist Require Import GoMatch Model SModel Spec ProofsString ProofsRefine ProofsTop ProofsC06 ProofsC06Ex ProofsC07 ProofsC07Ex.
 
-(* open / write / update / chtimes: EVERY crash state answers EVERY query of a fresh process as the run map BEFORE or AFTER *)
+(* open / write / close / update / chtimes (atomic_op): EVERY crash state answers EVERY query of a fresh process as the run map
+   BEFORE or AFTER the operation *)
 Theorem C07_crash_atomic :
   forall (loc : string) (dirhash : string -> string) (D days : list string) (K : list skey),
   names_okb loc dirhash D days K = true -> closedb D K = true ->
@@ -40,19 +44,36 @@ Theorem C07_crash_atomic :
   answers0 loc dirhash D days fs' (sp_state es) \/ answers0 loc dirhash D days fs' (sp_state (es ++ [EOp o])).
 Proof. exact crash_atomic. Qed.
 Print Assumptions C07_crash_atomic.
+Example C07_atomic_ops : forall d stamp req r8 c tag size now t,
+  map atomic_op [OOpen d stamp req now; OWrite tag size now; OClose now; OUpdate d req tag size now; OTouch d stamp r8 c t;
+                 ORename d d; ORemoveOld d now] = [true; true; true; true; true; false; false].
+Proof. reflexivity. Qed.
 
-(* close with compaction: find (every run, every DAG) answers as before the close in EVERY crash state - completed runs intact
-   (P1), the run being closed found with its last acknowledged status (P2); and unless the compacted twin already PARSES while the
-   original still exists (twin_window0), every query answers as before or after *)
-Theorem C07_crash_close_partial :
+(* close with compaction, spelled out: EVERY crash state - temporary copy absent / empty / torn / complete, copy published with the
+   original still there, original removed - answers every query as before or after the close.  (Before eb925d1 this was
+   C07_crash_close_partial with the twin-window exception.) *)
+Theorem C07_crash_close :
   forall loc dirhash D days K, names_okb loc dirhash D days K = true -> closedb D K = true ->
   forall es now fs', premises loc dirhash D days K (es ++ [EOp (OClose now)]) ->
   In fs' (crash_states loc dirhash (y_h (yrun loc dirhash sys_init es)) (OClose now)) ->
-  (forall d req, In d D -> fpayload (q_find loc dirhash fs' d req) = sp_find (sp_state es) d req)
-  /\ (twin_window0 (hfs (y_h (yrun loc dirhash sys_init es))) fs'
-      \/ answers0 loc dirhash D days fs' (sp_state es) \/ answers0 loc dirhash D days fs' (sp_state (es ++ [EOp (OClose now)]))).
+  answers0 loc dirhash D days fs' (sp_state es) \/ answers0 loc dirhash D days fs' (sp_state (es ++ [EOp (OClose now)])).
 Proof. exact crash_close0. Qed.
-Print Assumptions C07_crash_close_partial.
+Print Assumptions C07_crash_close.
+
+(* an update after a torn tail: the recording process is killed at ANY point of a write or an update (o); then a NEW process
+   (fresh_state: no writer, empty cache) records the status update u on the surviving directory fs'.  Afterwards every query is
+   answered as the run map with u recorded says - on top of the run map before or after o.  (Before 32b069b the update was glued to
+   the torn line and lost.) *)
+Theorem C07_update_after_torn :
+  forall loc dirhash D days K, names_okb loc dirhash D days K = true -> closedb D K = true ->
+  forall es o fs' d req tag size now, premises loc dirhash D days K (es ++ [EOp o]) ->
+  match o with OWrite _ _ _ | OUpdate _ _ _ _ _ => True | _ => False end ->
+  In fs' (crash_states loc dirhash (y_h (yrun loc dirhash sys_init es)) o) -> In d D ->
+  let u := OUpdate d req tag size now in
+  let fs2 := hfs (apply loc dirhash (fresh_state fs') u) in
+  answers0 loc dirhash D days fs2 (sp_apply (sp_state es) u) \/ answers0 loc dirhash D days fs2 (sp_apply (sp_state (es ++ [EOp o])) u).
+Proof. exact torn_then_update0. Qed.
+Print Assumptions C07_update_after_torn.
 
 (* retention / deletion: whatever prefix of the unlinks was executed, a run that is not up for removal is found intact (P1) *)
 Theorem C07_crash_removeold_partial :
@@ -78,7 +99,7 @@ Theorem C07_crash_rename_partial :
 Proof. exact crash_rename0. Qed.
 Print Assumptions C07_crash_rename_partial.
 
-(* ---- refuted on the faithful model (defects of the pinned code) ---------------------------------------------------------- *)
+(* ---- the former refutation witnesses, repaired --------------------------------------------------------------------------- *)
 (* F7a (P3, P4) - before fix 3aa388e the model answered latest = error, recent 1 = nothing in the crash state with the empty newest file *)
 Example C07_fixed_empty_newest :
   sp_latest (sp_state es0) a None = LOk q1 /\ sp_recent (sp_state es0) a 1 = [q1]
@@ -88,27 +109,40 @@ Example C07_fixed_empty_newest :
                          | _, _ => false end)
              (crash_states loc dh (y_h (yrun loc dh sys_init es0)) oOpen) = true.
 Proof. exact fixed_empty_newest. Qed.
-(* F7b (P4), still open: kill after the twin's status line is complete and before the original is unlinked - the run is listed twice *)
-Theorem C07_refuted_compaction_twin :
-  exists es now fs2, In fs2 (crash_states loc dh (y_h (yrun loc dh sys_init es)) (OClose now))
-    /\ sp_recent (sp_state es) a 2 = [q2; q1] /\ sp_recent (sp_state (es ++ [EOp (OClose now)])) a 2 = [q2; q1]
-    /\ snd (q_recent loc dh [] fs2 a 2) = [q2; q2].
-Proof. exact refuted_compaction_twin. Qed.
-Print Assumptions C07_refuted_compaction_twin.
-(* ... while an empty or torn twin is invisible now (before 3aa388e it took a slot: recent 2 = [q2]) *)
-Example C07_empty_twin_invisible :
-  snd (q_recent loc dh [] (nth 2 (crash_states loc dh (y_h (yrun loc dh sys_init es1)) (OClose 6%Z)) fs_empty) a 2) = [q2; q1]
-  /\ snd (q_recent loc dh [] (nth 3 (crash_states loc dh (y_h (yrun loc dh sys_init es1)) (OClose 6%Z)) fs_empty) a 2) = [q2; q1].
-Proof. exact empty_twin_invisible. Qed.
-(* F7c: an update accepted after a torn write is glued to the torn tail and lost *)
-Theorem C07_refuted_glued_update :
-  exists es o fs' upd, In fs' (crash_states loc dh (y_h (yrun loc dh sys_init es)) o)
-    /\ prims loc dh upd {| hfs := fs'; hwr := None; hcache := [] |} <> []
-    /\ fpayload (q_find loc dh (hfs (apply loc dh {| hfs := fs'; hwr := None; hcache := [] |} upd)) a "req-bbbb-2"%string) = Some q2.
-Proof. exact refuted_glued_update. Qed.
-Print Assumptions C07_refuted_glued_update.
+(* F7b (P4) - before fix eb925d1 the model answered recent 2 = [q2; q2] in the crash state of Close in which the compacted copy was
+   complete and the original not yet unlinked (the older run q1 was hidden); now all nine crash states answer [q2; q1] and latest = q2,
+   the state with both files (index 7) included *)
+Example C07_fixed_compaction_twin :
+  sp_recent (sp_state es1) a 2 = [q2; q1] /\ sp_recent (sp_state (es1 ++ [EOp (OClose 6%Z)])) a 2 = [q2; q1]
+  /\ List.length closeStates = 9
+  /\ forallb (fun fs' => match snd (q_recent loc dh [] fs' a 2), snd (q_latest loc dh [] fs' a None) with
+                         | [p; p'], LOk p'' => String.eqb (p_req p) "req-bbbb-2" && String.eqb (p_req p') "req-aaaa-1" && Nat.eqb (p_tag p'') 2
+                         | _, _ => false end) closeStates = true
+  /\ map (fun fs' => List.length (files fs')) closeStates = [2; 2; 2; 3; 3; 3; 3; 3; 2]%nat
+  /\ map e_name (files (nth 7 closeStates fs_empty))
+     = ["a.20240101.10:00:00.100.req-aaaa_c.dat"; "a.20240101.10:00:01.300.req-bbbb.dat"; "a.20240101.10:00:01.300.req-bbbb_c.dat"]%string.
+Proof. exact fixed_compaction_twin. Qed.
+(* ... and the temporary copy (empty / torn / complete) is matched by no pattern: find still reads the original *)
+Example C07_tmp_copy_invisible :
+  map e_name (files (nth 4 closeStates fs_empty))
+  = ["a.20240101.10:00:00.100.req-aaaa_c.dat"; "a.20240101.10:00:01.300.req-bbbb.dat"; "a.20240101.10:00:01.300.req-bbbb_c.dat.tmp"]%string
+  /\ forallb (fun i => match q_find loc dh (nth i closeStates fs_empty) a "req-bbbb-2" with
+                       | FFound _ fn p => String.eqb fn "a.20240101.10:00:01.300.req-bbbb.dat" && Nat.eqb (p_tag p) 2
+                       | _ => false end) [3; 4; 5; 6]%nat = true.
+Proof. exact tmp_copy_invisible. Qed.
+(* F7c - before fix 32b069b the model answered find = the OLD status q2 after an update (tag 9) recorded on a torn tail (the update
+   was glued to the torn line and lost); now find and latest answer the update in all four crash states of the interrupted write,
+   and writer.open appends the repairing newline exactly in the two torn ones (4 primitive steps instead of 3) *)
+Example C07_fixed_glued_update :
+  List.length tornStates = 4
+  /\ forallb (fun fs' => match fpayload (q_find loc dh (hfs (apply loc dh (fresh_state fs') upd9)) a "req-bbbb-2"),
+                               snd (q_latest loc dh [] (hfs (apply loc dh (fresh_state fs') upd9)) a None) with
+                         | Some p, LOk p' => Nat.eqb (p_tag p) 9 && Nat.eqb (p_tag p') 9
+                         | _, _ => false end) tornStates = true
+  /\ map (fun fs' => List.length (prims loc dh upd9 (fresh_state fs'))) tornStates = [3; 4; 4; 3]%nat.
+Proof. exact fixed_glued_update. Qed.
 
-(* ---- non-vacuity: the premises hold for traces whose last operation has 4 / 7 / 6 crash states ------------------------------ *)
+(* ---- non-vacuity: the premises hold for traces whose last operation has 4 / 9 / 6 crash states ------------------------------ *)
 Example C07_premises_satisfiable :
   names_okb loc dh DE7 [] KE7 = true /\ closedb DE7 KE7 = true
   /\ premisesb loc dh DE7 [] KE7 (es1 ++ [EOp (OWrite 3 10 7%Z)]) = true
@@ -116,6 +150,6 @@ Example C07_premises_satisfiable :
   /\ premisesb loc dh DE7 [] KE7 (es0 ++ [EOp (OUpdate a "req-aaaa-1" 5 11 9%Z)]) = true
   /\ premisesb loc dh DE7 [] KE7 (es0 ++ [EOp (ORemoveOld a 100%Z)]) = true
   /\ List.length (crash_states loc dh (y_h (yrun loc dh sys_init es1)) (OWrite 3 10 7%Z)) = 4
-  /\ List.length (crash_states loc dh (y_h (yrun loc dh sys_init es1)) (OClose 6%Z)) = 7
+  /\ List.length (crash_states loc dh (y_h (yrun loc dh sys_init es1)) (OClose 6%Z)) = 9
   /\ List.length (crash_states loc dh (y_h (yrun loc dh sys_init es0)) (OUpdate a "req-aaaa-1" 5 11 9%Z)) = 6.
 Proof. exact crash_premises_satisfiable. Qed.
